@@ -196,32 +196,41 @@ def gen_cases(tier, seed):
     rng = rng_for(seed, PROP_NO, 0)
     cfgs = _nldf_cfgs(tier, rng) + _plan_cfgs(tier) + _sdmx_cfgs(tier, rng) + _ks_cfgs(tier)
     cases = []
+    itag = {"onsite_direct": "dir", "onsite_spline": "spl", "train_gen": "tg"}
     for i, c in enumerate(cfgs):
-        name = {"nldf": lambda: "nldf-%s-v%s%s-%s-%s-l%.1f-L%d" % (c["mol"], c["ver"], c["sl"][0], c["plan"][:3], c["interp"][7:] or "tg",
-                                                                      c["lam"], c["lmax"]),
-                "plan": lambda: "plan-v%s-%s-%s-l%.1f%s" % (c["ver"], c["plan"][:3], c["order"], c["lam"], "-r1" if c.get("rep") else ""),
-                "sdmx": lambda: "sdmx-%s-%s-%s-n%d" % (c["skind"], c["mol"], c["basis"], c["ngrid"]),
-                "ks": lambda: "ks-%s-%s-%s" % (c["cfg"]["family"], c["cfg"]["spin"], c["cfg"]["mol"])}[c["kind"]]()
-        if c["kind"] == "nldf" and c["interp"] == "train_gen":
-            name = name.replace("-tg-", "-tg-").replace("-gen-", "-tg-")
+        if c["kind"] == "nldf":
+            name = "nldf-%s-v%s%s-%s-%s-l%.1f-L%d" % (c["mol"], c["ver"], c["sl"][0], c["plan"][:3], itag[c["interp"]], c["lam"], c["lmax"])
+        elif c["kind"] == "plan":
+            name = "plan-v%s-%s-%s-l%.1f%s" % (c["ver"], c["plan"][:3], c["order"], c["lam"], "-r1" if c.get("rep") else "")
+        elif c["kind"] == "sdmx":
+            name = "sdmx-%s-%s-%s-n%d" % (c["skind"], c["mol"], c["basis"], c["ngrid"])
+        else:
+            name = "ks-%s-%s-%s" % (c["cfg"]["family"], c["cfg"]["spin"], c["cfg"]["mol"])
         cases.append({"id": "c%04d-%s" % (i, name), "cfg": c, "seed": seed, "idx": 100 + i, "_threads": c["threads"],
                       "_weight": _weight(c), "_timeout": 1500})
     # a small subset again under ASan+UBSan (stride / offset mistakes that leave the array show there)
     nasan = {"nldf": 4, "plan": 1, "sdmx": 3, "ks": 0} if tier == "quick" else {"nldf": 24, "plan": 4, "sdmx": 12, "ks": 2}
+    chosen = []
+    count = {k: 0 for k in nasan}
+    classes = set()
+    for prefer_new in (True, False):
+        for cs in cases:
+            c = cs["cfg"]
+            k = c["kind"]
+            if count[k] >= nasan[k] or cs in chosen:
+                continue
+            if k == "nldf" and (NATM[c["mol"]] > 3 or c["lmax"] > 6):
+                continue
+            if k == "sdmx" and (NATM[c["mol"]] > 3 or c["ngrid"] > 600):
+                continue
+            cl = (k, c.get("ver"), c.get("skind"), c.get("interp"))
+            if prefer_new and cl in classes:
+                continue
+            classes.add(cl)
+            count[k] += 1
+            chosen.append(cs)
     extra = []
-    seen = {k: 0 for k in nasan}
-    for cs in cases:
-        c = cs["cfg"]
-        k = c["kind"]
-        if seen[k] >= nasan[k]:
-            continue
-        if k == "nldf" and (NATM[c["mol"]] > 3 or c["lmax"] > 6 or c["level"] > 0):
-            continue
-        if k == "nldf" and tier == "quick" and c["ver"] not in ("ij", "k", "i", "j")[seen[k]:seen[k] + 1]:
-            continue
-        if k == "sdmx" and NATM[c["mol"]] > 3:
-            continue
-        seen[k] += 1
+    for cs in chosen:
         a = dict(cs)
         a["id"] = cs["id"] + "-asan"
         a["idx"] = cs["idx"] + 50000
@@ -258,7 +267,8 @@ def _pair(ctx, name, mech, fwd, bwd, x, y, variant=""):
     x0, y0 = x.copy(), y.copy()
     Ax = np.asarray(fwd(x))
     By = np.asarray(bwd(y))
-    label = name + (("[%s]" % variant) if variant else "")
+    label = name
+    rec.tag("pair_variant", name + (("[%s]" % variant) if variant else ""))
     if not (np.array_equal(x, x0) and np.array_equal(y, y0)):
         raise RuntimeError("harness error: operator closure modified its argument (%s)" % label)
     if Ax.shape != y.shape or By.shape != x.shape:
@@ -275,7 +285,7 @@ def _pair(ctx, name, mech, fwd, bwd, x, y, variant=""):
     if obs <= TOL:
         rec.check(label, obs, TOL, mechanism=mech, detail=detail)
         if nax > 0 and nby > 0:
-            rec.nontrivial("%s|%d" % (label, k))
+            rec.nontrivial("%s|%s|%d" % (label, variant, k))
         if obs >= ctx.worst.get(label, -1.0):
             ctx.worst[label] = obs
             ctx.example[label] = {"lhs": lhs, "rhs": rhs, "normalised_mismatch": obs}
@@ -710,9 +720,8 @@ def _test_sdmx(ctx, ex, mol, coords, weights, stag, nrep, dm_nspin=1):
         def vx(w):
             ex.get_features(dm, mol, coords)  # (re)fills the cache get_vxc_ reads
             v = np.zeros_like(dm)
-            res = ex.get_vxc_(v, w.copy())
-            res = np.asarray(res)
-            return res + np.swapaxes(res, -1, -2)  # hermi_sum in nr_rks / nr_uks
+            ex.get_vxc_(v, w.copy())  # accumulates into v
+            return v + np.swapaxes(v, -1, -2)  # hermi_sum in nr_rks / nr_uks
 
         D = np.stack([gen.sym_direction(nao, rng) for _ in range(ndm)])
         D *= 0.5 * scale / np.linalg.norm(D[0])
